@@ -1,0 +1,35 @@
+//go:build verif
+
+// Contracts for the verification machinery in /verif (comment-only; excluded from normal builds).
+// Property C24 (file inclusion). Mode bv.
+//
+// isSkipedAstFile: a file is skipped exactly when its constraint line was evaluated and came out false,
+// and the tag assignment handed to Eval is "tag is the target OS, the target architecture, or one of the
+// configured build tags". The search for the constraint comment and the parser are not part of the claim.
+
+package loader
+
+//@ extern (*token.FileSet).Position
+//@ extern (*ast.CommentGroup).Text
+
+// the tag predicate passed to Eval
+//@ func (*_Loader).isSkipedAstFile$1
+//@   requires p != nil && *p != nil && p.prog != nil && p.prog.Manifest != nil
+//@   loop 0 invariant 0 <= rangeindex + 1 && rangeindex < len(p.cfg.BuilgTags)
+//@   loop 0 invariant forall j int :: 0 <= j && j <= rangeindex ==> p.cfg.BuilgTags[j] != tag
+//@   ensures[tagset] result == (tag == p.GetTargetOS() || tag == p.GetTargetArch() ||
+//@        (exists j int :: 0 <= j && j < len(p.cfg.BuilgTags) && p.cfg.BuilgTags[j] == tag))
+//@   safe
+//@   property C24
+
+//@ func (*_Loader).isSkipedAstFile
+//@   results skip, err
+//@   requires p != nil && f != nil && p.prog != nil
+//@   loop 0 invariant true
+//@   loop 1 invariant true
+//@   loop 2 invariant true
+//@   ensures[polarity] err == nil && g_evals != old(g_evals) ==> skip == !g_eval_result
+//@   ensures[noexpr]   g_evals == old(g_evals) ==> skip == false
+//@   ensures[once]     g_evals == old(g_evals) || g_evals == old(g_evals) + 1
+//@   modifies g_evals, g_eval_result
+//@   property C24
